@@ -84,13 +84,22 @@ func (o *oracle) readTs() uint64 {
 	o.Lock()
 	readTs = o.nextTxnTs - 1
 	o.readMark.Begin(readTs)
+	if y.VerifEnabled {
+		y.VerifEvent("orc.readTs.alloc", readTs)
+	}
 	o.Unlock()
+	if y.VerifEnabled {
+		y.VerifGate("orc.readTs.wait", readTs)
+	}
 
 	// Wait for all txns which have no conflicts, have been assigned a commit
 	// timestamp and are going through the write to value log and LSM tree
 	// process. Not waiting here could mean that some txns which have been
 	// committed would not be read.
 	y.Check(o.txnMark.WaitForMark(context.Background(), readTs))
+	if y.VerifEnabled {
+		y.VerifEvent("orc.readTs.ready", readTs)
+	}
 	return readTs
 }
 
@@ -113,6 +122,9 @@ func (o *oracle) setDiscardTs(ts uint64) {
 	defer o.Unlock()
 	o.discardTs = ts
 	o.cleanupCommittedTransactions()
+	if y.VerifEnabled {
+		y.VerifEvent("orc.setDiscardTs", ts)
+	}
 }
 
 func (o *oracle) discardAtOrBelow() uint64 {
@@ -155,6 +167,9 @@ func (o *oracle) newCommitTs(txn *Txn) (uint64, bool) {
 	defer o.Unlock()
 
 	if o.hasConflict(txn) {
+		if y.VerifEnabled {
+			y.VerifEvent("orc.commit.conflict", txn, txn.readTs)
+		}
 		return 0, true
 	}
 
@@ -184,6 +199,9 @@ func (o *oracle) newCommitTs(txn *Txn) (uint64, bool) {
 		})
 	}
 
+	if y.VerifEnabled {
+		y.VerifEvent("orc.commit.ts", txn, txn.readTs, ts, len(o.committedTxns), o.lastCleanupTs)
+	}
 	return ts, false
 }
 
@@ -191,6 +209,9 @@ func (o *oracle) doneRead(txn *Txn) {
 	if !txn.doneRead {
 		txn.doneRead = true
 		o.readMark.Done(txn.readTs)
+		if y.VerifEnabled {
+			y.VerifEvent("orc.doneRead", txn, txn.readTs)
+		}
 	}
 }
 
@@ -233,6 +254,9 @@ func (o *oracle) doneCommit(cts uint64) {
 		return
 	}
 	o.txnMark.Done(cts)
+	if y.VerifEnabled {
+		y.VerifEvent("orc.doneCommit", cts)
+	}
 }
 
 // Txn represents a Badger transaction.
@@ -524,6 +548,9 @@ func (txn *Txn) commitAndSend() (func() error, error) {
 	// the order in which we push these updates to the write channel. So, we
 	// acquire a writeChLock before getting a commit timestamp, and only release
 	// it after pushing the entries to it.
+	if y.VerifEnabled {
+		y.VerifGate("commit.start", txn)
+	}
 	orc.writeChLock.Lock()
 	defer orc.writeChLock.Unlock()
 
@@ -590,13 +617,25 @@ func (txn *Txn) commitAndSend() (func() error, error) {
 		entries = append(entries, e)
 	}
 
+	if y.VerifEnabled {
+		y.VerifGate("commit.beforeEnqueue", txn, commitTs)
+	}
 	req, err := txn.db.sendToWriteCh(entries)
 	if err != nil {
+		if y.VerifEnabled {
+			y.VerifEvent("commit.rejected", txn, commitTs, err)
+		}
 		orc.doneCommit(commitTs)
 		return nil, err
 	}
+	if y.VerifEnabled {
+		y.VerifEvent("commit.enqueued", txn, commitTs)
+	}
 	ret := func() error {
 		err := req.Wait()
+		if y.VerifEnabled {
+			y.VerifGate("commit.beforeDone", commitTs)
+		}
 		// Wait before marking commitTs as done.
 		// We can't defer doneCommit above, because it is being called from a
 		// callback here.
